@@ -10,8 +10,8 @@ import (
 	"golang.org/x/tools/go/ssa"
 
 	"mtverif/internal/core"
-	"mtverif/internal/tree"
 	"mtverif/internal/fde"
+	"mtverif/internal/tree"
 )
 
 func whatwgBinary(b int) bool {
@@ -303,11 +303,13 @@ func isFieldOfElem(v ssa.Value, r fde.RangeElem, fld int) bool {
 // plainParts finds, in the plain sniffer, the utf8.Valid call, the ASCII test
 // call and the Latin fallback.
 type plainParts struct {
-	f      *ssa.Function
-	valid  *ssa.Call
-	ascii  *ssa.Call
-	latin  *ssa.Call
-	bomRet *ssa.Return
+	g        *ssa.Function // the function holding the byte inspection (f itself, or the helper f hands its input to)
+	bodyCall *ssa.Call     // f's call of g when they differ
+	f        *ssa.Function
+	valid    *ssa.Call
+	ascii    *ssa.Call
+	latin    *ssa.Call
+	bomRet   *ssa.Return
 }
 
 func getPlain(c *core.Ctx) *plainParts {
@@ -315,8 +317,29 @@ func getPlain(c *core.Ctx) *plainParts {
 	if cm.plain == nil {
 		core.Bail("no sniffer registered for text/plain")
 	}
-	p := &plainParts{f: cm.plain}
-	for _, ci := range core.Calls(p.f) {
+	p := &plainParts{f: cm.plain, g: cm.plain}
+	// the byte inspection may sit in a helper that the sniffer hands its unmodified input to (after the BOM lookup)
+	hasValid := func(h *ssa.Function) bool {
+		for _, ci := range core.Calls(h) {
+			if core.CalleeIs(ci.Common(), "unicode/utf8", "Valid") {
+				return true
+			}
+		}
+		return false
+	}
+	if !hasValid(cm.plain) {
+		for _, ci := range core.Calls(cm.plain) {
+			call, ok := ci.(*ssa.Call)
+			if !ok {
+				continue
+			}
+			h := call.Call.StaticCallee()
+			if h != nil && core.InMod(h) && h.Blocks != nil && h != cm.bomFn && len(h.Params) == 1 && len(call.Call.Args) == 1 && call.Call.Args[0] == ssa.Value(cm.plain.Params[0]) && core.IsString(h.Signature.Results().At(0).Type()) && hasValid(h) {
+				p.g, p.bodyCall = h, call
+			}
+		}
+	}
+	for _, ci := range core.Calls(p.g) {
 		call, ok := ci.(*ssa.Call)
 		if !ok {
 			continue
@@ -392,9 +415,20 @@ var rulePlainReturns = &core.Rule{ID: "R11.3", Min: 4,
 			}
 			s.Check(first && retOK, "BOM lookup first", c.Pos(bomCall.Pos()), "dominates every other call; non-empty result returned as is", "the BOM lookup is not the first decision of the plain sniffer or its result is not returned unchanged")
 		}
-		for _, r := range core.Returns(f) {
+		rets := core.Returns(f)
+		if p.g != f {
+			rets = append(rets, core.Returns(p.g)...)
+		}
+		for _, r := range rets {
 			key := returnOrdinal(r)
+			if r.Parent() != f {
+				key = p.g.Name() + ": " + key
+			}
 			v := r.Results[0]
+			if p.bodyCall != nil && v == ssa.Value(p.bodyCall) {
+				s.OK(key, c.Pos(r.Pos()), "result of the byte inspection helper (judged there)")
+				continue
+			}
 			if k, ok := core.ConstString(v); ok {
 				switch k {
 				case "":
@@ -459,7 +493,7 @@ var ruleASCIIClass = &core.Rule{ID: "R11.4", Min: 256,
 			}
 		}
 		// the shortcut must be applied to the sniffer's unmodified input
-		s.Check(p.ascii.Call.Args[0] == ssa.Value(p.f.Params[0]), "ASCII test on the unmodified input", c.Pos(p.ascii.Pos()), "argument is the parameter", "the ASCII test runs on something other than the sniffer's input")
+		s.Check(p.ascii.Call.Args[0] == ssa.Value(p.g.Params[0]), "ASCII test on the unmodified input", c.Pos(p.ascii.Pos()), "argument is the parameter", "the ASCII test runs on something other than the sniffer's input")
 	}}
 
 // R11.5
@@ -471,7 +505,7 @@ var ruleTrim = &core.Rule{ID: "R11.5", Min: 2,
 			s.Bad("utf8.Valid call", c.Pos(p.f.Pos()), "the plain sniffer never validates UTF-8")
 			return
 		}
-		f := p.f
+		f := p.g
 		n := 0
 		// frames: calls of trimming helpers being looked through (innermost last)
 		var frames []*ssa.Call
@@ -625,7 +659,7 @@ var ruleLatin = &core.Rule{ID: "R11.6", Min: 256,
 			want := map[bool]string{true: "windows-1252", false: "iso-8859-1"}[fl]
 			s.Check(k == want, key, c.Pos(exits[0].Ret.Pos()), want, fmt.Sprintf("returns %q, want %q", k, want))
 		}
-		s.Check(p.latin.Call.Args[0] == ssa.Value(p.f.Params[0]), "Latin fallback on the unmodified input", c.Pos(p.latin.Pos()), "argument is the parameter", "the Latin fallback runs on something other than the sniffer's input")
+		s.Check(p.latin.Call.Args[0] == ssa.Value(p.g.Params[0]), "Latin fallback on the unmodified input", c.Pos(p.latin.Pos()), "argument is the parameter", "the Latin fallback runs on something other than the sniffer's input")
 	}}
 
 // bomSwitchCheck judges a hand-written BOM lookup (explicit byte tests, no
